@@ -202,10 +202,15 @@ func (s *Stream) projectGroupColumns(results []map[string]any) {
 	}
 }
 
-// injectGroupKeyExprs 对函数表达式分组键（如 upper(device)）就地求值并写入行，使窗口与
+// injectGroupKeyExprs 对函数表达式分组键（如 upper(device)）求值并写入行，使窗口与
 // aggregator 能按该合成键分组（它们只按 row[key] 取值，不求值）。裸列键无需处理。
-// 仅窗口路径在 Window.Add 前调用；dataMap 为 Emit 拷贝或 JOIN 增强副本，注入安全。
-func (s *Stream) injectGroupKeyExprs(data map[string]any) {
+// 仅窗口路径在 Window.Add 前调用，返回交给窗口的行。
+//
+// Without a JOIN, data is the caller's own map (Emit does not copy), so the computed keys are
+// written into a shallow copy made before the first write; with a JOIN data already is the
+// engine's enriched copy. Queries without function-expression group keys return data as is.
+func (s *Stream) injectGroupKeyExprs(data map[string]any) map[string]any {
+	owned := s.hasJoin()
 	for _, gf := range s.config.GroupFields {
 		if !strings.Contains(gf, "(") {
 			continue
@@ -214,8 +219,13 @@ func (s *Stream) injectGroupKeyExprs(data map[string]any) {
 		if err != nil {
 			continue
 		}
+		if !owned {
+			data = copyRowShallow(data, len(s.config.GroupFields))
+			owned = true
+		}
 		data[gf] = v
 	}
+	return data
 }
 
 // qualifiedRefRe matches dotted identifiers like "m.location" (a maximal run of
